@@ -97,7 +97,7 @@ def cases(tier, seed):
 
 
 FSNAMES = ['d', 'regs', 'outs', 'mem_ws', 'ins', 'fs_mem0', 'a"b', 'a\\b', 'a\nb', "a'b", 'lambda', 'class', '_fastsim_tmp_0',
-           'uint64_t', 'main', 'tmp', 'x%s', '{x}', 'w0_a', 'insert', 'lookup', 'sim_run_all']
+           'uint64_t', 'main', 'tmp', 'x%s', '{x}', 'w0_a', 'insert', 'lookup', 'sim_run_all', 'int', 'len', 'min', 'sim_func', 'True']
 
 
 def build_fsnames(d):
@@ -114,7 +114,7 @@ def build_fsnames(d):
     rd <<= m[a[0:2]]
     m[c[0:2]] <<= pyrtl.MemBlock.EnabledWrite(w, c[2])
     o = pyrtl.Output(4, 'o')
-    o <<= rd + r
+    o <<= (rd + r) ^ (a < c)      # a comparison: the generated Python calls int(...) for it
     return pyrtl.working_block()
 
 
